@@ -179,7 +179,9 @@ Proof. cbv zeta. split; [reflexivity|]. eexists. repeat split; vm_compute; refle
 From TV Require Import Model.LocalEngine Spec.LocalEngine Proofs.LocalEngine.
 From TV Require Import Model.EngineItem Model.KernMachine Model.MarkBase Model.GsubLig.
 From TV Require Import Proofs.EngineItem Proofs.KernMachine Proofs.MarkBase Proofs.GsubLig Proofs.EnginePieces.
-From TV Require Proofs.ContextPass.
+From TV Require Import Model.ArabicJoin Proofs.ArabicJoin.
+From TV Require Import Model.PairPos Model.MarkMark Proofs.ForwardRule Proofs.BackwardRule Proofs.PairPos Proofs.MarkMark Proofs.EnginePieces2.
+From TV Require Import Proofs.Direction Proofs.MarkBaseDir Proofs.GsubSingleDir Proofs.GsubLigBackward Proofs.EnginePiecesBackward.
 
 (* THE CUT THEOREM.  For ANY item type, ANY direction convention `side`, ANY invariant Inv and ANY engine (list of passes,
    any number) whose passes meet the contract step_ok (progress, invariant, clusters only merged, flags persist, and the
@@ -268,17 +270,179 @@ Theorem flag_window_is_unsafe_to_break : forall lv a w b0 pl pc fc ft hg, (lv =?
 Proof. exact Proofs.EnginePieces.flag_window_is_unsafe_to_break. Qed.
 Print Assumptions flag_window_is_unsafe_to_break.
 
-(* the context half of the contract is satisfiable by a rule that really reads the neighbouring piece: the forward half
-   of a joining rule (a joiner followed by a joiner — in the run or, at its end, in the post-context — takes its joined
-   form; design-level instance, not a model of applyArabicJoining) is a well-formed engine, hence cut-safe with the
-   pieces given each other's text as context *)
-Theorem context_reading_pass_cut_safe : forall L R pre suf c,
+(* ---- Arabic joining (Model/ArabicJoin.v: applyArabicJoining) — the pass that READS THE CONTEXT; replaces the design-level
+   joining rule of Proofs/ContextPass.v ---- *)
+(* applyArabicJoining (ot_arabic.go), modelled as the look-ahead pass arab_pass of Model/ArabicJoin.v (tied to the Go
+   function by the correspondence check of driver c18arab; ProduceSafeToInsertTatweel off, so that safeToInsertTatweel is
+   unsafeToBreak), meets the contract of Spec/LocalEngine.v on every buffer in logical order (non-decreasing clusters),
+   for every pre- and post-context: it reads the text on its left only through the joining type of the last letter
+   (non-transparent code point) and the text on its right through the joining type of the first letter, and its steps
+   do not change what it sees of a neighbouring piece *)
+Theorem arabic_joining_meets_contract :
+  step_ok icl iutb sideL sorted arab_pass /\ stable sorted arab_pass arab_pass.
+Proof. exact Proofs.ArabicJoin.arab_meets_contract. Qed.
+Print Assumptions arabic_joining_meets_contract.
+
+(* why a piece may start from state 0 + the last letter of its pre-context although the state machine has run over all
+   the text before: for EVERY text L ++ d on the left and every joining type ty of the next letter, the state reached by
+   the whole run and the state the piece computes give the same currAction and nextState (they may differ in prevAction,
+   the form of a letter on the other side of the cut, whose window was flagged when the form was given) *)
+Theorem arabic_state_at_cut : forall L d ty,
+  e_curr (a_entry (st_at L d) ty) = e_curr (a_entry (st_init (L ++ d)) ty)
+  /\ e_next (a_entry (st_at L d) ty) = e_next (a_entry (st_init (L ++ d)) ty).
+Proof. exact Proofs.ArabicJoin.arab_state_at_cut. Qed.
+Print Assumptions arabic_state_at_cut.
+
+(* THE CUT STATEMENT for Arabic joining: a run pre ++ suf in logical order with contexts L, R, cut along cluster value c.
+   If after the pass cluster c is neither flagged unsafe-to-break nor gone, joining the whole run equals joining the two
+   pieces, each with the other piece's text in its context, and concatenating (shaping actions, clusters, all flags) *)
+Theorem arabic_joining_cut_safe : forall L R pre suf c,
   sorted (pre ++ suf) -> sorted pre -> sorted suf -> cutv icl sideL c pre suf = true ->
-  fog icl iutb c (erun [Proofs.ContextPass.join_pass] L R (pre ++ suf)) = false ->
-  erun [Proofs.ContextPass.join_pass] L R (pre ++ suf)
-  = erun [Proofs.ContextPass.join_pass] L (suf ++ R) pre ++ erun [Proofs.ContextPass.join_pass] (L ++ pre) R suf.
-Proof. exact (wf_engine_cut_safe icl iutb sideL sorted [Proofs.ContextPass.join_pass] Proofs.ContextPass.join_engine_wf). Qed.
-Print Assumptions context_reading_pass_cut_safe.
+  fog icl iutb c (erun [arab_pass] L R (pre ++ suf)) = false ->
+  erun [arab_pass] L R (pre ++ suf)
+  = erun [arab_pass] L (suf ++ R) pre ++ erun [arab_pass] (L ++ pre) R suf.
+Proof. exact Proofs.ArabicJoin.arab_cut_safe. Qed.
+Print Assumptions arabic_joining_cut_safe.
+
+(* THE LOOP AS WRITTEN IS THE PASS: with ProduceUnsafeToConcat / ProduceSafeToInsertTatweel off, the Info computed by the
+   model of the Go loop as written (arab_code: cursor i, prev, state; the previous letter gets its form, and the window
+   [prev, i+1) is flagged, when the next letter is reached; post-context loop at the end) equals the output of the
+   look-ahead pass, for every run, every context and every cluster assignment *)
+Theorem arabic_joining_code_is_the_pass : forall L R l rec,
+  fst (arab_code false false L R l rec) = prun arab_pass L R l.
+Proof. exact Proofs.ArabicJoin.arab_code_is_the_pass. Qed.
+Print Assumptions arabic_joining_code_is_the_pass.
+
+(* hence the cut statement holds of the loop as written *)
+Theorem arabic_joining_code_cut_safe : forall L R pre suf c rec,
+  sorted (pre ++ suf) -> sorted pre -> sorted suf -> cutv icl sideL c pre suf = true ->
+  fog icl iutb c (fst (arab_code false false L R (pre ++ suf) rec)) = false ->
+  fst (arab_code false false L R (pre ++ suf) rec)
+  = fst (arab_code false false L (suf ++ R) pre rec) ++ fst (arab_code false false (L ++ pre) R suf rec).
+Proof. exact Proofs.ArabicJoin.arab_code_cut_safe. Qed.
+Print Assumptions arabic_joining_code_cut_safe.
+
+(* ---- GPOS pair positioning (Model/PairPos.v: applyGPOS case PairPos, applyGPOSPair1 / applyGPOSPair2,
+   applyGPOSValueRecord) ---- *)
+
+(* every FORWARD WINDOW RULE meets the contract: a rule that at the glyph x under the cursor inspects x :: firstn m rest,
+   rewrites it into W (same clusters, flags only added, glyphProps kept), flags W as unsafeToBreak does and moves the cursor
+   1 <= n <= m + 1 glyphs, provided its decision is local (a window that fits into the piece before a cut is found on the
+   piece alone with the same result; a rule that does not fire on the whole text does not fire on the piece) *)
+Theorem forward_window_rule_meets_contract : forall plan : item -> list item -> option (nat * list item * nat),
+  (forall x rest m W n, plan x rest = Some (m, W, n) ->
+     (1 <= m <= length rest)%nat /\ Forall2 keeps (x :: firstn m rest) W /\ (1 <= n <= S m)%nat) ->
+  (forall x r1 t2 m W n, plan x (r1 ++ t2) = Some (m, W, n) -> (m <= length r1)%nat -> plan x r1 = Some (m, W, n)) ->
+  (forall x r1 t2, plan x (r1 ++ t2) = None -> plan x r1 = None) ->
+  step_ok icl iutb sideL sorted (fr_pass plan).
+Proof. exact fr_step_ok. Qed.
+Print Assumptions forward_window_rule_meets_contract.
+
+(* pair positioning (formats 1 and 2, value records with placements, advances and an X-advance device table, any lookup
+   flag / mask, the window [i, j+1) flagged when a record had an effect — a device delta alone counts — and [i, j+2)
+   when there is a second value record) meets the contract on every buffer with non-decreasing clusters *)
+Theorem pairpos_meets_contract : forall P, step_ok icl iutb sideL sorted (pp_pass P).
+Proof. exact pp_step_ok. Qed.
+Print Assumptions pairpos_meets_contract.
+
+(* one PairPos lookup as the code runs it (cursor jumping to the second glyph of a pair without second value record) IS
+   one run of that pass, on every buffer in which no glyph the pair iterator skips passes the first-glyph tests of the
+   lookup (pp_left_okb, executable; without it the statement is false: Findings/PairLeft.v, C18-F97) *)
+Theorem pairpos_code_is_the_pass : forall P L R l rec, (pp_mask P =? 0) = false ->
+  pp_left_okb P l = true -> fst (pp_lookup (l, rec) P) = prun (pp_pass P) L R l.
+Proof. intros P L R l rec M H. apply pp_lookup_is_pass; [exact M|]. apply pp_left_okb_plok. exact H. Qed.
+Print Assumptions pairpos_code_is_the_pass.
+
+(* hence the cut statement for the model of the lookup itself *)
+Theorem pairpos_lookup_cut_safe : forall P pre suf c rec, (pp_mask P =? 0) = false ->
+  sorted (pre ++ suf) -> cutv icl sideL c pre suf = true -> pp_left_okb P (pre ++ suf) = true ->
+  let W := fst (pp_lookup (pre ++ suf, rec) P) in
+  fog icl iutb c W = false ->
+  W = fst (pp_lookup (pre, rec) P) ++ fst (pp_lookup (suf, rec) P).
+Proof. exact Proofs.EnginePieces2.pairpos_lookup_cut_safe. Qed.
+Print Assumptions pairpos_lookup_cut_safe.
+
+(* ---- GPOS mark-to-mark attachment (Model/MarkMark.v: applyGPOSMarkToMark, applyGPOSMarks) ---- *)
+
+(* every BACKWARD WINDOW RULE meets the contract, in either buffer direction: a rule that at the glyph x under the cursor
+   picks a glyph already passed (index b), rewrites x (same cluster, flags only added, glyphProps kept), flags the window
+   [b, cursor] and advances by one, provided its decision is local (what it finds on the piece that starts at a cut it
+   finds at the same place on the whole text; what it does not find there it does not find on the whole text either, or
+   finds before the cut) *)
+Theorem backward_window_rule_meets_contract : forall plan : list item -> item -> option (nat * item),
+  (forall d x b x', plan d x = Some (b, x') -> (b < length d)%nat /\ keeps x x') ->
+  (forall d1 d2 x,
+     match plan d2 x with
+     | Some (b, x') => plan (d1 ++ d2) x = Some ((length d1 + b)%nat, x')
+     | None => plan (d1 ++ d2) x = None \/ exists b x', plan (d1 ++ d2) x = Some (b, x') /\ (b < length d1)%nat
+     end) ->
+  forall side srt, dir_ok side srt -> step_ok icl iutb side srt (br_pass plan).
+Proof. exact br_step_ok_dir. Qed.
+Print Assumptions backward_window_rule_meets_contract.
+
+(* mark-to-mark attachment (the nearest preceding glyph the iterator does not skip must be a mark whose ligature id /
+   component agree with those of the current mark and that is covered; the window [j, idx+1) is flagged) meets the
+   contract for every table, in either buffer direction; the ligProps the rule reads are modelled *)
+Theorem markmark_meets_contract : forall side srt, dir_ok side srt -> forall P, step_ok icl iutb side srt (mm_pass P).
+Proof. exact mm_step_ok_dir. Qed.
+Print Assumptions markmark_meets_contract.
+
+(* one MarkMarkPos lookup as the code runs it IS one run of that pass *)
+Theorem markmark_code_is_the_pass : forall P L R l rec, (mb_mask P =? 0) = false ->
+  fst (mm_lookup (l, rec) P) = prun (mm_pass P) L R l.
+Proof. exact mm_lookup_is_pass. Qed.
+Print Assumptions markmark_code_is_the_pass.
+
+(* every engine built from the pieces above AND pair positioning / mark-to-mark lookups, in any number and order, is
+   cut-safe *)
+Theorem engine_pieces_with_pairpos_cut_safe : forall (ps : list xpiece) L R pre suf c,
+  inv_mb (pre ++ suf) -> inv_mb pre -> inv_mb suf -> cutv icl sideL c pre suf = true ->
+  fog icl iutb c (erun (map xpiece_pass ps) L R (pre ++ suf)) = false ->
+  erun (map xpiece_pass ps) L R (pre ++ suf)
+  = erun (map xpiece_pass ps) L (suf ++ R) pre ++ erun (map xpiece_pass ps) (L ++ pre) R suf.
+Proof. exact xpieces_cut_safe. Qed.
+Print Assumptions engine_pieces_with_pairpos_cut_safe.
+
+(* ---- buffers of right-to-left runs: visual order, non-increasing clusters (sideR, rsorted); the lookups run forward
+   over them ---- *)
+
+(* what the instance proofs use of a buffer direction holds of both: the invariant depends on the cluster values only,
+   and a flagged window that crosses a cut flags the cut *)
+Theorem both_directions_ok : dir_ok sideL sorted /\ dir_ok sideR rsorted.
+Proof. exact (conj dirL dirR). Qed.
+Print Assumptions both_directions_ok.
+
+(* forward window rules, hence pair positioning, meet the contract in either direction *)
+Theorem pairpos_meets_contract_backward : forall P, step_ok icl iutb sideR rsorted (pp_pass P).
+Proof. exact (pp_step_ok_dir sideR rsorted dirR). Qed.
+Print Assumptions pairpos_meets_contract_backward.
+
+Theorem markbase_meets_contract_backward : forall P, step_ok icl iutb sideR inv_r (mb_pass P).
+Proof. exact (mb_step_ok_dir sideR rsorted dirR). Qed.
+Print Assumptions markbase_meets_contract_backward.
+
+(* GSUB single and ligature substitution: in this direction the minimal cluster of a ligature window is its LAST one and
+   mergeClusters extends the merge BACKWARD into the out-buffer (over the glyphs already passed that share the cluster of
+   the first component) *)
+Theorem gsub_meets_contract_backward : forall P, step_ok icl iutb sideR inv_r (gs_pass P).
+Proof. exact gs_step_ok_R. Qed.
+Print Assumptions gsub_meets_contract_backward.
+
+(* a rule that rewrites the glyph under the cursor alone meets the contract in any direction *)
+Theorem gsub_single_meets_contract_any_direction : forall side srt, dir_ok side srt ->
+  forall P, gs_lig P = false -> step_ok icl iutb side (fun l => srt l /\ nomult l) (gs_pass P).
+Proof. exact gs_single_step_ok_dir. Qed.
+Print Assumptions gsub_single_meets_contract_any_direction.
+
+(* every engine built from pair positioning, mark-to-base and GSUB single / ligature lookups over the buffer hi ++ lo of a
+   right-to-left run (hi holds the later text) is cut-safe *)
+Theorem engine_pieces_cut_safe_backward : forall (ps : list rpiece) L R hi lo c,
+  inv_r (hi ++ lo) -> inv_r hi -> inv_r lo -> cutv icl sideR c hi lo = true ->
+  fog icl iutb c (erun (map rpiece_pass ps) L R (hi ++ lo)) = false ->
+  erun (map rpiece_pass ps) L R (hi ++ lo)
+  = erun (map rpiece_pass ps) L (lo ++ R) hi ++ erun (map rpiece_pass ps) (L ++ hi) R lo.
+Proof. exact rpieces_cut_safe. Qed.
+Print Assumptions engine_pieces_cut_safe_backward.
 
 (* ---- non-vacuity ---- *)
 Definition ex_it (c g u q : Z) : item := mkI (mkGX c fl0 1 0 g u q) 0 (mkP 500 0 0 0 0 0).
@@ -350,14 +514,329 @@ Example flag_window_example :
     /\ info b' = map ig (a ++ flag_window w ++ b0).
 Proof. cbv zeta. eexists. repeat split; vm_compute; reflexivity. Qed.
 
-(* the context is really read: the same one-glyph run, with and without a joiner as post-context; and a run whose last
-   glyph joins the outer post-context while the cut inside it is safe *)
-Example context_example :
-  let J := Proofs.ContextPass.join_pass in
-  map igid (erun [J] [] [ex_it 9 5 7 2] [ex_it 0 1 7 2]) = [101]
-  /\ map igid (erun [J] [] [] [ex_it 0 1 7 2]) = [1]
-  /\ let pre := [ex_it 0 1 7 2; ex_it 1 2 7 2] in let suf := [ex_it 2 4 7 2; ex_it 3 3 7 2] in let R := [ex_it 9 5 7 2] in
-     fog icl iutb 2 (erun [J] [] R (pre ++ suf)) = false
-     /\ map igid (erun [J] [] R (pre ++ suf)) = [1; 2; 4; 103]
-     /\ erun [J] [] R (pre ++ suf) = erun [J] [] (suf ++ R) pre ++ erun [J] ([] ++ pre) R suf.
+
+(* pair positioning: A V | B with the class pair (A, V) whose only value is a device delta on the first glyph: the pair is
+   adjusted and FLAGGED (seed C18-r5m2), the cut before B is safe and the pieces reproduce the whole; with a second value
+   record the glyph after the pair is flagged too *)
+Definition ex_dev : vrec := mkVR 0 0 0 0 true (-192).
+Definition ex_pp : ppparams := mkPP 0 1 true true true 68 0 [(0, 1, ex_dev, vr0)] [1] [] [(2, 1)].
+Definition ex_pp2 : ppparams := mkPP 0 1 true false false 4 1 [(1, 2, mkVR 0 0 (-40) 0 false 0, mkVR 15 0 0 0 false 0)] [] [] [].
+Example pairpos_example :
+  let pre := [ex_it 0 1 7 2; ex_it 1 2 7 2] in
+  let suf := [ex_it 2 3 7 2] in
+  let W := fst (pp_lookup (pre ++ suf, false) ex_pp) in
+  pp_left_okb ex_pp (pre ++ suf) = true
+  /\ map (fun x => (xa (ip x), iutb x)) W = [(308, false); (500, true); (500, false)]
+  /\ fog icl iutb 2 W = false /\ fog icl iutb 1 W = true
+  /\ W = fst (pp_lookup (pre, false) ex_pp) ++ fst (pp_lookup (suf, false) ex_pp)
+  /\ W = prun (pp_pass ex_pp) [] [] (pre ++ suf)
+  /\ map (fun x => (xa (ip x), xo (ip x), iutb x)) (fst (pp_lookup (pre ++ suf, false) ex_pp2))
+     = [(460, 0, false); (500, 15, true); (500, 0, true)].
+Proof. cbv zeta. repeat split; vm_compute; reflexivity. Qed.
+
+(* a forward window rule that is not PairPos: "a glyph 7 followed by a glyph 8 flags the pair" *)
+Example forward_rule_example :
+  let plan := fun (x : item) (rest : list item) =>
+    match rest with y :: _ => if (igid x =? 7) && (igid y =? 8) then Some (1%nat, [x; y], 1%nat) else None | [] => None end in
+  map iutb (prun (fr_pass plan) [] [] [ex_it 0 7 7 2; ex_it 1 8 7 2; ex_it 2 7 7 2]) = [false; true; false].
+Proof. vm_compute. reflexivity. Qed.
+
+Example pieces_pairpos_example :
+  let ps := [XBase (PGsub ex_gs); XPair ex_pp2; XBase (PMark ex_mb)] in
+  let pre := [ex_it 0 3 7 2; ex_it 0 31 289 0; ex_it 0 3 7 2; ex_it 0 20 140 8; ex_it 1 2 7 2] in
+  let suf := [ex_it 2 5 7 2; ex_it 3 3 7 2] in
+  let W := erun (map xpiece_pass ps) [] [] (pre ++ suf) in
+  W <> pre ++ suf /\ fog icl iutb 2 W = false
+  /\ W = erun (map xpiece_pass ps) [] (suf ++ []) pre ++ erun (map xpiece_pass ps) ([] ++ pre) [] suf.
+Proof. cbv zeta. repeat split; try (vm_compute; reflexivity). vm_compute. discriminate. Qed.
+
+(* a right-to-left buffer (clusters 3 2 1 1 0): a single substitution, a kerned pair (glyphs 2 1, clusters 2 1: the
+   cluster value 2 — the later text of the pair — is flagged) and a mark attached to its base inside cluster 1; the cut
+   between clusters 3 and 2 (cluster value 3, hi = the glyph of cluster 3) is unflagged and safe *)
+Definition ex_ppr : ppparams := mkPP 0 1 true false false 4 0 [(2, 1, mkVR 0 0 (-30) 0 false 0, vr0)] [] [] [].
+Example backward_example :
+  let ps := [RGsub (mkGS 0 1 false [(5, 6)] []); RPair ex_ppr; RMark ex_mb] in
+  let hi := [ex_it 3 5 7 2] in
+  let lo := [ex_it 2 2 7 2; ex_it 1 1 7 2; ex_it 1 20 140 8; ex_it 0 3 7 2] in
+  let W := erun (map rpiece_pass ps) [] [] (hi ++ lo) in
+  cutv icl sideR 3 hi lo = true
+  /\ map (fun x => (icl x, igid x, xa (ip x), iutb x)) W
+     = [(3, 6, 500, false); (2, 2, 470, true); (1, 1, 500, false); (1, 20, 500, false); (0, 3, 500, false)]
+  /\ fog icl iutb 3 W = false /\ fog icl iutb 2 W = true
+  /\ W = erun (map rpiece_pass ps) [] (lo ++ []) hi ++ erun (map rpiece_pass ps) ([] ++ hi) [] lo.
+Proof. cbv zeta. repeat split; vm_compute; reflexivity. Qed.
+
+(* a ligature in a right-to-left buffer: clusters 3 2 2 1 0, the ligature 4 + 1 -> 9 over the glyphs of clusters 2 and 1
+   (the second glyph of cluster 2 is its first component): the merge takes cluster 1 and reaches BACK to the first glyph
+   of cluster 2, already in the out-buffer; cluster 2 is gone, the cuts at 3 and at 1 (hi ends with the ligature) stay
+   safe *)
+Example backward_ligature_example :
+  let ps := [RGsub (mkGS 0 1 true [] [([4; 1], 9)])] in
+  let l := [ex_it 3 5 7 2; ex_it 2 6 7 2; ex_it 2 4 7 2; ex_it 1 1 7 2; ex_it 0 3 7 2] in
+  let W := erun (map rpiece_pass ps) [] [] l in
+  map (fun x => (icl x, igid x)) W = [(3, 5); (1, 6); (1, 9); (0, 3)]
+  /\ fog icl iutb 2 W = true /\ fog icl iutb 3 W = false /\ fog icl iutb 1 W = false
+  /\ W = erun (map rpiece_pass ps) [] (skipn 1 l) (firstn 1 l) ++ erun (map rpiece_pass ps) (firstn 1 l) [] (skipn 1 l)
+  /\ W = erun (map rpiece_pass ps) [] (skipn 4 l) (firstn 4 l) ++ erun (map rpiece_pass ps) (firstn 4 l) [] (skipn 4 l).
+Proof. cbv zeta. repeat split; vm_compute; reflexivity. Qed.
+
+(* ---- Arabic joining ---- *)
+(* cluster, joining type (0 U, 1 L, 2 R, 3 D, 4 ALAPH, 5 DALATH RISH, 7 T); no action yet (7 = none) *)
+Definition ex_aj (c ty : Z) : item := mkI (mkGX c fl0 1 ty 0 0 0) 7 p0.
+Definition ex_acts (l : list item) : list Z := map ilig l.
+Definition ex_utbs (l : list item) : list bool := map iutb l.
+
+(* BEH BEH: init + fina, the cut inside the pair is flagged *)
+Example arabic_joined_pair_flagged :
+  let W := erun [arab_pass] [] [] [ex_aj 0 3; ex_aj 1 3] in
+  ex_acts W = [6; 1] /\ ex_utbs W = [false; true] /\ fog icl iutb 1 W = true.
+Proof. vm_compute. repeat split; reflexivity. Qed.
+
+(* the form at the end of a run depends on the post-context (through a transparent mark), the form at its start on the
+   pre-context: BEH alone is isol; before FATHA BEH it is init; after BEH it is fina; between them medi *)
+Example arabic_context_forms :
+  ex_acts (erun [arab_pass] [] [] [ex_aj 0 3]) = [0]
+  /\ ex_acts (erun [arab_pass] [] [ex_aj 9 7; ex_aj 9 3] [ex_aj 0 3]) = [6]
+  /\ ex_acts (erun [arab_pass] [ex_aj 9 3] [] [ex_aj 0 3]) = [1]
+  /\ ex_acts (erun [arab_pass] [ex_aj 9 3] [ex_aj 9 3] [ex_aj 0 3; ex_aj 1 7]) = [4; 7].
+Proof. vm_compute. repeat split; reflexivity. Qed.
+
+(* BEH ALEF | BEH BEH: ALEF does not join forward, the cut after it is not flagged, and the conclusion of the theorem
+   holds with both pieces non-empty and changed; the state of the whole run at the second pair is not the one the piece
+   starts from *)
+Example arabic_safe_cut_example :
+  let pre := [ex_aj 0 3; ex_aj 1 2] in
+  let suf := [ex_aj 2 3; ex_aj 3 7; ex_aj 4 3] in
+  let W := erun [arab_pass] [] [] (pre ++ suf) in
+  sorted (pre ++ suf) /\ cutv icl sideL 2 pre suf = true
+  /\ fog icl iutb 2 W = false /\ fog icl iutb 1 W = true /\ fog icl iutb 4 W = true
+  /\ ex_acts W = [6; 1; 6; 7; 1]
+  /\ W = erun [arab_pass] [] (suf ++ []) pre ++ erun [arab_pass] ([] ++ pre) [] suf.
+Proof. cbv zeta. split; [cbn; intuition lia|]. vm_compute. repeat split; reflexivity. Qed.
+
+(* the states differ across a cut: after BEH BEH the whole run is in state 3, a piece starting there in state 2 *)
+Example arabic_states_differ :
+  st_at [] [ex_aj 0 3; ex_aj 1 3] = 3%nat /\ st_init ([] ++ [ex_aj 0 3; ex_aj 1 3]) = 2%nat.
+Proof. vm_compute. split; reflexivity. Qed.
+
+(* the loop as written on LAM FATHA ALEF | BEH with post-context BEH: lam init, alef fina, beh init; the window of the
+   first pair covers the mark; the write is recorded (bsfHasGlyphFlags) *)
+Example arabic_code_example :
+  let l := [ex_aj 0 3; ex_aj 1 7; ex_aj 2 2; ex_aj 3 3] in
+  let W := arab_code false false [] [ex_aj 9 3] l false in
+  ex_acts (fst W) = [6; 7; 1; 6] /\ ex_utbs (fst W) = [false; true; true; false] /\ snd W = true
+  /\ fst W = prun arab_pass [] [ex_aj 9 3] l.
+Proof. vm_compute. repeat split; reflexivity. Qed.
+
+(* ====================================================================================================================
+   GSUB multiple substitution (Model/GsubMulti.v) and contextual lookups of format 3 (Model/Context3.v)
+   ==================================================================================================================== *)
+(* C18 fragment (to be pasted into Props/C18.v): GSUB multiple substitution and the contextual lookups of format 3 as
+   window-local rules.  Property theorems only. *)
+From TV Require Import Model.GsubMulti Model.Context3 Spec.LocalEngine.
+From TV Require Import Model.KernMachine.
+From TV Require Import Proofs.LocalEngine Proofs.EngineItem Proofs.KernMachine Proofs.GsubMulti Proofs.Context3 Proofs.EngineMulti.
+
+(* GSUB multiple substitution (applySubsSequence: in-place replacement, multiplication, deletion with deleteGlyph and the
+   hand-over of the glyph flags) meets the contract of a window-local pass, for EVERY table, on buffers in logical order
+   whose first cluster is not flagged (inv_gm = sorted /\ head_clear; no cut lies before the first cluster, and
+   deleteGlyph at the start of the buffer clears its flags: Findings/GsubMultiHead.v) *)
+Theorem gsub_multiple_meets_contract : forall P, step_ok icl iutb sideL inv_gm (gm_pass P).
+Proof. exact gm_step_ok. Qed.
+Print Assumptions gsub_multiple_meets_contract.
+
+(* the lookup loop of the model that the correspondence check compares with the implementation IS the pass *)
+Theorem gsub_multiple_code_is_the_pass : forall P L R l, (gm_mask P =? 0) = false -> gm_lookup l P = prun (gm_pass P) L R l.
+Proof. exact gm_lookup_is_pass. Qed.
+Print Assumptions gsub_multiple_code_is_the_pass.
+
+(* any number of multiple-substitution lookups, any tables: an unflagged surviving cluster boundary is a safe cut *)
+Theorem gsub_multiple_engine_cut_safe : forall (Ps : list gmparams) L R pre suf c,
+  inv_gm (pre ++ suf) -> inv_gm pre -> inv_gm suf -> cutv icl sideL c pre suf = true ->
+  fog icl iutb c (erun (map gm_pass Ps) L R (pre ++ suf)) = false ->
+  erun (map gm_pass Ps) L R (pre ++ suf)
+  = erun (map gm_pass Ps) L (suf ++ R) pre ++ erun (map gm_pass Ps) (L ++ pre) R suf.
+Proof. exact gm_engine_cut_safe. Qed.
+Print Assumptions gsub_multiple_engine_cut_safe.
+
+(* the contextual lookups of format 3 (ChainedContextualSubs3, and ContextualSubs3 as the case without backtrack and
+   lookahead; nested single substitutions) meet the contract on buffers in logical order, for EVERY table *)
+Theorem gsub_context3_meets_contract : forall P, step_ok icl iutb sideL sorted (cx_pass P).
+Proof. exact cx_step_ok. Qed.
+Print Assumptions gsub_context3_meets_contract.
+
+Theorem gsub_context3_code_is_the_pass : forall P L R l, (cx_mask P =? 0) = false -> cx_lookup l P = prun (cx_pass P) L R l.
+Proof. exact cx_lookup_is_pass. Qed.
+Print Assumptions gsub_context3_code_is_the_pass.
+
+Theorem gsub_context3_engine_cut_safe : forall (Ps : list cxparams) L R pre suf c,
+  sorted (pre ++ suf) -> sorted pre -> sorted suf -> cutv icl sideL c pre suf = true ->
+  fog icl iutb c (erun (map cx_pass Ps) L R (pre ++ suf)) = false ->
+  erun (map cx_pass Ps) L R (pre ++ suf)
+  = erun (map cx_pass Ps) L (suf ++ R) pre ++ erun (map cx_pass Ps) (L ++ pre) R suf.
+Proof. exact cx_engine_cut_safe. Qed.
+Print Assumptions gsub_context3_engine_cut_safe.
+
+(* the legacy kerning, the contextual lookups and GSUB single / ligature substitution (here without the `nomult` side
+   condition) keep the first cluster of a buffer in logical order unflagged, so they meet the contract under the invariant
+   of the multiple substitution too *)
+Theorem kern_gsub_context3_meet_contract_first_cluster_clear : forall p, step_ok icl iutb sideL inv_gm (mpiece_pass p).
+Proof. exact mpiece_step_ok. Qed.
+Print Assumptions kern_gsub_context3_meet_contract_first_cluster_clear.
+
+(* every engine built from multiple-substitution lookups, single / ligature lookups, contextual lookups of format 3 and
+   kern passes - any number,
+   any tables, any order: if the run is in logical order and its first cluster is not flagged (the hypotheses about the
+   two pieces follow), a cluster boundary that is neither flagged nor merged away after all passes is a safe cut *)
+Theorem multi_gsub_context_kern_engine_cut_safe : forall (ps : list mpiece) L R pre suf c,
+  sorted (pre ++ suf) -> head_clear (pre ++ suf) -> pre <> [] -> cutv icl sideL c pre suf = true ->
+  fog icl iutb c (erun (map mpiece_pass ps) L R (pre ++ suf)) = false ->
+  erun (map mpiece_pass ps) L R (pre ++ suf)
+  = erun (map mpiece_pass ps) L (suf ++ R) pre ++ erun (map mpiece_pass ps) (L ++ pre) R suf.
+Proof. exact mpieces_cut_safe_whole. Qed.
+Print Assumptions multi_gsub_context_kern_engine_cut_safe.
+
+(* ---- non-vacuity ---- *)
+Definition mx_it (c g q : Z) (f : fl) : item := mkI (mkGX c f 1 0 g 7 q) 0 p0.
+
+(* a 1 -> 2 substitution of a ligature glyph: both outputs inherit cluster and flags, become base glyphs with the
+   substituted and multiplied bits (2 + 16 + 64) and carry the component numbers 0, 1 *)
+Definition mx_P2 : gmparams := mkGM 0 1 [(2, [5; 6])].
+Example multiple_example :
+  let l := [mx_it 0 1 2 fl0; mx_it 1 2 4 m_concat; mx_it 2 3 2 fl0] in
+  map (fun x => (icl x, igid x, gp (ig x), ilig x, utc (gf (ig x)))) (gm_run [mx_P2] l)
+  = [(0, 1, 2, 0, false); (1, 5, 82, 0, true); (1, 6, 82, 1, true); (2, 3, 2, 0, false)].
+Proof. vm_compute. reflexivity. Qed.
+
+(* a deletion: the deleted glyph carries the unsafe-to-break flag and shares its cluster with the LAST glyph of the
+   buffer, which takes the flag over; the cut before that cluster stays flagged, the cut before cluster 1 is safe and
+   the conclusion of the engine theorem holds there with both pieces non-empty *)
+Definition mx_P0 : gmparams := mkGM 0 1 [(2, [])].
+Example deletion_hands_flag_over_example :
+  let pre := [mx_it 0 1 2 fl0] in
+  let suf := [mx_it 1 4 2 fl0; mx_it 2 2 2 m_break; mx_it 2 3 2 fl0] in
+  let W := erun [gm_pass mx_P0] [] [] (pre ++ suf) in
+  inv_gm (pre ++ suf) /\ inv_gm pre /\ inv_gm suf
+  /\ map (fun x => (icl x, igid x, iutb x)) W = [(0, 1, false); (1, 4, false); (2, 3, true)]
+  /\ fog icl iutb 2 W = true /\ fog icl iutb 1 W = false
+  /\ W = erun [gm_pass mx_P0] [] (suf ++ []) pre ++ erun [gm_pass mx_P0] ([] ++ pre) [] suf.
+Proof.
+  cbv zeta. repeat split; try (vm_compute; reflexivity);
+    try (cbn; intuition (subst; try reflexivity; cbn in *; try lia; try discriminate)).
+Qed.
+
+(* a chained context: backtrack {1}, input {2} {3}, lookahead {4}, glyph 3 replaced by 9 at input position 1: the window
+   [backtrack, lookahead) = clusters 1..4 is flagged outside its first cluster, the cut before cluster 5 (outside the
+   window) is not flagged and is safe *)
+Definition mx_CX : cxparams := mkCX 0 1 [[1]] [[2]; [3]] [[4]] [(1%nat, [(3, 9)])].
+Example chained_context_example :
+  let pre := [mx_it 0 5 2 fl0; mx_it 1 1 2 fl0; mx_it 2 2 2 fl0; mx_it 3 3 2 fl0; mx_it 4 4 2 fl0] in
+  let suf := [mx_it 5 5 2 fl0] in
+  let W := erun [cx_pass mx_CX] [] [] (pre ++ suf) in
+  map (fun x => (icl x, igid x, iutb x)) W
+  = [(0, 5, false); (1, 1, false); (2, 2, true); (3, 9, true); (4, 4, true); (5, 5, false)]
+  /\ fog icl iutb 2 W = true /\ fog icl iutb 4 W = true /\ fog icl iutb 5 W = false
+  /\ W = erun [cx_pass mx_CX] [] (suf ++ []) pre ++ erun [cx_pass mx_CX] ([] ++ pre) [] suf
+  (* cutting inside the window changes the result: the flag is needed *)
+  /\ W <> erun [cx_pass mx_CX] [] [] (firstn 3 (pre ++ suf)) ++ erun [cx_pass mx_CX] [] [] (skipn 3 (pre ++ suf)).
+Proof. cbv zeta. repeat split; try (vm_compute; reflexivity). vm_compute. discriminate. Qed.
+
+(* an engine of four passes: a ligature lookup (5 + 1 -> 6), the chained context marks glyph 3 (-> 9) behind the ligature
+   (backtrack {6}), a multiple substitution expands 9 into 7 8 and
+   deletes glyph 4 (alone in its cluster: the cluster disappears), then the pair (8, 5) is kerned, which flags cluster 5;
+   the cuts inside the context window and before cluster 5 are flagged (or gone), the cut before cluster 6 is not
+   flagged and is safe *)
+Definition mx_P3 : gmparams := mkGM 0 1 [(9, [7; 8]); (4, [])].
+Definition mx_kp : kparams := mkKP [(8, 5, -60)] 1 true.
+Definition mx_gs : gsparams := mkGS 0 1 true [] [([5; 1], 6)].
+Definition mx_CX2 : cxparams := mkCX 0 1 [[6]] [[2]; [3]] [[4]] [(1%nat, [(3, 9)])].
+Example mixed_engine_example :
+  let ps := [MGsub mx_gs; MCtx mx_CX2; MMulti mx_P3; MKern mx_kp] in
+  let pre := [mx_it 0 5 2 fl0; mx_it 1 1 2 fl0; mx_it 2 2 2 fl0; mx_it 3 3 2 fl0; mx_it 4 4 2 fl0] in
+  let suf := [mx_it 5 5 2 fl0; mx_it 6 6 2 fl0] in
+  let W := erun (map mpiece_pass ps) [] [] (pre ++ suf) in
+  map (fun x => (icl x, igid x, iutb x)) W
+  = [(0, 6, false); (2, 2, true); (3, 7, true); (3, 8, true); (5, 5, true); (6, 6, false)]
+  /\ fog icl iutb 1 W = true /\ fog icl iutb 4 W = true /\ fog icl iutb 5 W = true /\ fog icl iutb 6 W = false
+  /\ W = erun (map mpiece_pass ps) [] ([mx_it 6 6 2 fl0] ++ []) (pre ++ [mx_it 5 5 2 fl0])
+         ++ erun (map mpiece_pass ps) ([] ++ pre ++ [mx_it 5 5 2 fl0]) [] [mx_it 6 6 2 fl0].
+Proof. cbv zeta. repeat split; vm_compute; reflexivity. Qed.
+
+(* ====================================================================================================================
+   The pieces together
+   ==================================================================================================================== *)
+From TV Require Import Proofs.PointRule Proofs.EngineAll Proofs.ArabicThenPieces.
+
+(* a pass that rewrites the glyph under the cursor alone, as a function of that glyph only (same cluster, flag kept),
+   meets the contract in either buffer direction *)
+Theorem point_rule_meets_contract : forall f : item -> item,
+  (forall x, icl (f x) = icl x /\ (iutb x = true -> iutb (f x) = true)) ->
+  forall side srt, dir_ok side srt -> step_ok icl iutb side srt (pt_pass f).
+Proof. exact pt_step_ok. Qed.
+Print Assumptions point_rule_meets_contract.
+
+(* pair positioning never flags the first cluster of a buffer in logical order: it meets the contract under
+   inv_gm = sorted /\ head_clear as well, and joins the engine of multiple substitution, contextual format 3, single /
+   ligature substitution and kerning.  Every engine built from these FIVE kinds of passes, in any number and order, is
+   cut-safe; of the whole run only logical order and an unflagged first cluster are asked *)
+Theorem all_substitution_and_pair_passes_engine_cut_safe : forall (ps : list apiece) L R pre suf c,
+  sorted (pre ++ suf) -> head_clear (pre ++ suf) -> pre <> [] -> cutv icl sideL c pre suf = true ->
+  fog icl iutb c (erun (map apiece_pass ps) L R (pre ++ suf)) = false ->
+  erun (map apiece_pass ps) L R (pre ++ suf)
+  = erun (map apiece_pass ps) L (suf ++ R) pre ++ erun (map apiece_pass ps) (L ++ pre) R suf.
+Proof. exact apieces_cut_safe_whole. Qed.
+Print Assumptions all_substitution_and_pair_passes_engine_cut_safe.
+
+(* THE ORDER OF THE SHAPER: Arabic joining first (it reads the REAL neighbouring text through psumL / psumR), then any
+   engine of kerning, GSUB single / ligature, mark-to-base and pair positioning passes (lifted: they do not read the
+   context).  The engine is well formed — a later pass cannot disturb what the joining pass has read — hence cut-safe *)
+Theorem arabic_joining_then_pieces_cut_safe : forall (ps : list xpiece) L R pre suf c,
+  inv_mb (pre ++ suf) -> inv_mb pre -> inv_mb suf -> cutv icl sideL c pre suf = true ->
+  fog icl iutb c (erun (arab_engine ps) L R (pre ++ suf)) = false ->
+  erun (arab_engine ps) L R (pre ++ suf)
+  = erun (arab_engine ps) L (suf ++ R) pre ++ erun (arab_engine ps) (L ++ pre) R suf.
+Proof. exact arab_then_pieces_cut_safe. Qed.
+Print Assumptions arabic_joining_then_pieces_cut_safe.
+
+(* the five kinds of passes in one engine: the mixed engine above followed by a pair positioning lookup on the ligature
+   glyph 6 and the glyph 2 after it *)
+Definition mx_pp : ppparams := mkPP 0 1 true false false 4 0 [(6, 2, mkVR 0 0 (-25) 0 false 0, vr0)] [] [] [].
+Example all_passes_example :
+  let ps := [AGsub mx_gs; ACtx mx_CX2; AMulti mx_P3; AKern mx_kp; APair mx_pp] in
+  let pre := [mx_it 0 5 2 fl0; mx_it 1 1 2 fl0; mx_it 2 2 2 fl0; mx_it 3 3 2 fl0; mx_it 4 4 2 fl0; mx_it 5 5 2 fl0] in
+  let suf := [mx_it 6 6 2 fl0] in
+  let W := erun (map apiece_pass ps) [] [] (pre ++ suf) in
+  map (fun x => (icl x, igid x, iutb x)) W
+  = [(0, 6, false); (2, 2, true); (3, 7, true); (3, 8, true); (5, 5, true); (6, 6, false)]
+  /\ W <> erun (map mpiece_pass [MGsub mx_gs; MCtx mx_CX2; MMulti mx_P3; MKern mx_kp]) [] [] (pre ++ suf)
+  /\ fog icl iutb 6 W = false
+  /\ W = erun (map apiece_pass ps) [] (suf ++ []) pre ++ erun (map apiece_pass ps) ([] ++ pre) [] suf.
+Proof. cbv zeta. repeat split; try (vm_compute; reflexivity). vm_compute. discriminate. Qed.
+
+(* joining, then a ligature lookup and a kerning pass: LAM ALEF | BEH with a transparent mark; the joining pass gives the
+   forms from the text (the cut after ALEF is safe: ALEF does not join forward), the later passes rewrite the glyphs *)
+Example arabic_then_pieces_example :
+  let ps := [XBase (PKern ex_kp)] in
+  let pre := [ex_aj 0 3; ex_aj 1 2] in
+  let suf := [ex_aj 2 3; ex_aj 3 7] in
+  let R := [ex_aj 9 3] in
+  let W := erun (arab_engine ps) [] R (pre ++ suf) in
+  ex_acts W = [6; 1; 6; 7] /\ fog icl iutb 2 W = false /\ fog icl iutb 1 W = true
+  /\ W = erun (arab_engine ps) [] (suf ++ R) pre ++ erun (arab_engine ps) ([] ++ pre) R suf
+  (* the context is really read: without it the last letter is isolated *)
+  /\ ex_acts (erun (arab_engine ps) [] [] (pre ++ suf)) = [6; 1; 0; 7].
+Proof. cbv zeta. repeat split; vm_compute; reflexivity. Qed.
+
+(* mark-to-mark: base, mark, ZWNJ (its own cluster), mark: the second mark attaches to the first across the skipped ZWNJ,
+   the window [first mark, second mark] is flagged outside its first cluster; a mark that belongs to another ligature
+   component does not attach *)
+Definition ex_mm : mbparams := mkMB 0 1 [(21, 0, 5, 10)] [(20, [(true, 100, 400)])].
+Example markmark_example :
+  let l := [ex_it 0 1 7 2; ex_it 0 20 140 8; ex_it 1 30 545 0; ex_it 2 21 140 8] in
+  let W := fst (mm_lookup (l, false) ex_mm) in
+  map (fun x => (iutb x, xo (ip x), yo (ip x), ach (ip x))) W
+  = [(false, 0, 0, 0); (false, 0, 0, 0); (true, 0, 0, 0); (true, 95, 390, -2)]
+  /\ W = prun (mm_pass ex_mm) [] [] l
+  /\ let l2 := [ex_it 0 1 7 2; with_lig (ex_it 0 20 140 8) 33; ex_it 1 30 545 0; with_lig (ex_it 2 21 140 8) 34] in
+     fst (mm_lookup (l2, false) ex_mm) = l2.
 Proof. cbv zeta. repeat split; vm_compute; reflexivity. Qed.
